@@ -207,6 +207,27 @@ func checkC20(c *Ctx) {
 				bad += "the call at " + p.pos(call.Pos()) + " depends on " + as + "; "
 			}
 		}
+		// and no way out of layout() avoids them, except the one for a missing view
+		calls := map[ssa.Instruction]bool{}
+		for _, call := range callsIn(lay, func(nm string, _ *ssa.CallCommon) bool {
+			return strings.HasSuffix(nm, "BoxLayout).hLayout") || strings.HasSuffix(nm, "BoxLayout).vLayout")
+		}) {
+			calls[call] = true
+		}
+		for _, r := range returnsOf(lay) {
+			if !existsPathFromEntryAvoiding(lay, r, calls) {
+				continue
+			}
+			noView := false
+			for _, a := range guardsAt(r.Block()) {
+				if strings.Contains(a.L, ".view") && a.Op == "==" && a.R == "nil" {
+					noView = true
+				}
+			}
+			if !noView {
+				bad += "the return at " + p.pos(r.Pos()) + " is reachable without laying out; "
+			}
+		}
 		c.Check(n == 2 && bad == "", "C20-R3", "layout:unconditional", p.pos(lay.Pos()), "hLayout/vLayout run whenever layout() is called with a view "+bad)
 	} else {
 		c.Undecided("C20-R3", "layout", "-", "not found")
